@@ -1,5 +1,6 @@
 import SkimModel.Model.Preview
 import SkimModel.Generated.ScrollFns
+import SkimModel.Lemmas.FnTactics
 /-!
 `act_scroll_down` / `act_scroll_right` as TRANSLATED from src/previewer.rs (`Generated/ScrollFns.lean`, rewritten from the source on
 every run) are, for all inputs, the arithmetic of the C20 model; and the lock discipline the model's atomic scroll step rests on
@@ -12,13 +13,13 @@ theorem scroll_down_is_model (v len : Nat) (d : Int) :
     ScrollFns.actScrollDown v len d = clampScroll (scrollBy v d) len := by
   unfold ScrollFns.actScrollDown clampScroll scrollBy
   try simp only []
-  all_goals ((repeat' split) <;> (first | rfl | omega))
+  all_goals fn_eq
 
 theorem scroll_right_is_model (v : Nat) (d : Int) :
     ScrollFns.actScrollRight v d = max 1 (scrollBy v d) := by
   unfold ScrollFns.actScrollRight scrollBy
   try simp only []
-  all_goals ((repeat' split) <;> (first | rfl | omega))
+  all_goals fn_eq
 
 /-- the scroll action is one critical section on the content lock (what makes `scroll` an atomic step of the model) -/
 theorem scroll_down_holds_content_lock : ScrollFns.scrollDownHoldsContentLock = true := by decide
